@@ -427,8 +427,6 @@ stack::uptr
 op_merge::next (scon &sc) const
 {
   state &st = sc.get <state> (m_ll);
-  if (st.m_done)
-    return nullptr;
 
   while (! st.m_done)
     {
@@ -438,6 +436,10 @@ op_merge::next (scon &sc) const
 	st.m_idx = 0;
     }
 
+  // Upstream is drained.  It may be fed again later (e.g. when this
+  // merge is part of a sub-expression), so start afresh next time.
+  st.m_done = false;
+  st.m_idx = 0;
   return nullptr;
 }
 
